@@ -811,7 +811,8 @@ Definition apply_mut (m : mutation) (c : cctx) (o r : cslate) : cslate :=
     let r' := set_proof r None in
     mkSlate (sl_num_parts r') (sl_id r')
             (match sl_state r' with StS2 => StI2 | StI2 => StS2 | s => s end)
-            (sl_coms r') (sl_unsorted r') (sl_amount r') (sl_fee r')
+            (sl_coms r') (sl_unsorted r') (sl_amount r')
+            (match cx_fee c with Some f => f | None => sl_fee r' end)   (* the public fee, restored *)
             (sl_feat r') (sl_feat_args r') (sl_ttl r') (sl_off r') (sl_sigs r') (sl_proof r')
   | MPPNoSig => set_proof r (match sl_proof r with
                              | Some p => Some (mkPay (pi_sender p) (pi_receiver p) None) | None => None end)
